@@ -958,6 +958,8 @@ impl<K, V> TreeBin<K, V> {
         bin: Shared<'g, BinEntry<K, V>>,
         guard: &'g Guard<'_>,
     ) {
+        #[cfg(flurry_verif)]
+        crate::reclaim::verif_seam::retire(bin.as_ptr() as usize, guard);
         guard.defer_retire(bin.as_ptr(), |link| {
             let bin = unsafe {
                 // SAFETY: `bin` is a `Linked<BinEntry<K, V>>`
